@@ -8,18 +8,19 @@ import (
 
 // target is one Go function that is regenerated as a Lean definition.
 type target struct {
-	Dir         string            // package directory relative to the repo root
-	Recv        string            // receiver type name, "" for a plain function
-	Name        string            // function name
-	Lean        string            // name of the Lean definition (namespace Ucan.Gen)
-	Fuel        []string          // fuel (a Lean Nat expression over the parameters) for each non-range loop, in source order
-	Uses        []string          // section variables the definition mentions, passed explicitly by callers
-	Nilable     []string          // slice parameters that the function compares with nil: modelled as Option
-	File        string            // generated file (Ucan/Gen/<File>.lean)
-	StructAs    map[string]string // Go struct type -> the structTable entry it stands for in this target
-	StructLocal string            // a local of a modelled struct type that is replaced by one local per field (structlocal.go)
-	Concrete    []string          // Go types this target sees as their modelled struct (not as the opaque parameter of typeTable)
-	Shell       bool              // every method the function calls on its receiver is a parameter (shellMethods): the definition
+	Dir            string            // package directory relative to the repo root
+	Recv           string            // receiver type name, "" for a plain function
+	Name           string            // function name
+	Lean           string            // name of the Lean definition (namespace Ucan.Gen)
+	Fuel           []string          // fuel (a Lean Nat expression over the parameters) for each non-range loop, in source order
+	Uses           []string          // section variables the definition mentions, passed explicitly by callers
+	Nilable        []string          // slice parameters that the function compares with nil: modelled as Option
+	File           string            // generated file (Ucan/Gen/<File>.lean)
+	StructAs       map[string]string // Go struct type -> the structTable entry it stands for in this target
+	InlineClosures bool              // local closures without results are inlined at their call statements (closures.go)
+	StructLocal    string            // a local of a modelled struct type that is replaced by one local per field (structlocal.go)
+	Concrete       []string          // Go types this target sees as their modelled struct (not as the opaque parameter of typeTable)
+	Shell          bool              // every method the function calls on its receiver is a parameter (shellMethods): the definition
 	// depends on the body of this one function only. A shell target is never a callee; list it after the full one.
 }
 
@@ -79,6 +80,10 @@ var targets = []target{
 		Uses: []string{"ext_open"}},
 	{Dir: "did", Name: "Parse", Lean: "did_Parse", File: "Did", Uses: []string{"ext_mbDecode", "ext_fromUvarint"}, Concrete: []string{"did.DID"}},
 	{Dir: "token/internal/parse", Name: "OptionalTimestamp", Lean: "OptionalTimestamp", File: "ParseTime"},
+	{Dir: "token/delegation", Recv: "Token", Name: "validate", Lean: "Dlg_validate", File: "Decode", InlineClosures: true,
+		StructAs: map[string]string{"delegation.Token": "delegation.Token#dec"}, Uses: []string{"lower", "ext_defined"}},
+	{Dir: "token/invocation", Recv: "Token", Name: "validate", Lean: "Inv_validate", File: "Decode", InlineClosures: true,
+		StructAs: map[string]string{"invocation.Token": "invocation.Token#dec"}, Uses: []string{"lower", "ext_defined"}},
 	{Dir: "token/delegation", Name: "tokenFromModel", Lean: "Dlg_tokenFromModel", File: "Decode", Shell: true, StructLocal: "tkn",
 		StructAs: map[string]string{"delegation.Token": "delegation.Token#dec"},
 		Uses:     []string{"lower", "ext_didParse", "ext_optionalDID", "ext_policyFromIPLD", "ext_newMeta", "ext_dlgValidate"}},
@@ -240,7 +245,7 @@ type libCall struct {
 
 // impureLibCalls: library functions that can fail — their translation is a GoM computation
 var impureLibCalls = map[string]bool{"mbase.Decode": true, "varint.FromUvarint": true, "did.Parse": true, "parse.OptionalDID": true,
-	"command.Parse": true, "policy.FromIPLD": true, "parse.OptionalTimestamp": true}
+	"command.Parse": true, "command.IsValid": true, "policy.FromIPLD": true, "parse.OptionalTimestamp": true}
 
 // libCalls: standard-library functions with their model. `lower` (strings.ToLower) stays a parameter.
 var libCalls = map[string]libCall{
@@ -258,6 +263,7 @@ var libCalls = map[string]libCall{
 	// functions of other packages of the library that a decoder calls: translated ones are called, the others are parameters
 	"did.Parse":               {"(ext_didParse $1)", ty{"D", "did.DID"}, []string{"ext_didParse"}},
 	"parse.OptionalDID":       {"(ext_optionalDID $1)", ty{"D", "did.DID"}, []string{"ext_optionalDID"}},
+	"command.IsValid":         {"(Command_IsValid lower $1)", boolTy, []string{"lower"}},
 	"command.Parse":           {"(Command_Parse lower $1)", ty{"Bytes", "command.Command"}, []string{"lower"}},
 	"policy.FromIPLD":         {"(ext_policyFromIPLD $1)", ty{"(List (Option S))", "policy.Policy"}, []string{"ext_policyFromIPLD"}},
 	"parse.OptionalTimestamp": {"(OptionalTimestamp $1)", ty{"(Option Int)", "*time.Time"}, nil},
@@ -267,6 +273,7 @@ var libCalls = map[string]libCall{
 
 // methodCalls: library methods, keyed by "GoType.Method".
 var methodCalls = map[string]libCall{
+	"did.DID.Defined":        {"(ext_defined $r)", boolTy, []string{"ext_defined"}},
 	"time.Time.After":        {"(decide ($r > $1))", boolTy, nil},
 	"time.Time.Before":       {"(decide ($r < $1))", boolTy, nil},
 	"command.Command.String": {"$r", ty{"Bytes", "string"}, nil},
@@ -278,6 +285,7 @@ var methodCalls = map[string]libCall{
 var externMethods = map[string]libCall{
 	"invocation.Token.loadProofs":     {"(ext_loadProofs $r $1)", ty{"(List (DlgTok D S))", "[]delegation.Token"}, []string{"ext_loadProofs"}},
 	"delegation.Loader.GetDelegation": {"(ext_GetDelegation $r $1)", ty{"(DlgTok D S)", "*delegation.Token"}, []string{"ext_GetDelegation"}},
+	"*time.Time.Unix":                 {"(deref $r)", ty{"Int", "int64"}, nil},
 	"*args.Args.ReadOnly":             {"(ext_ReadOnly $r)", ty{"R", "args.ReadOnly"}, []string{"ext_ReadOnly"}},
 	"*args.Args.Validate":             {"(ext_argsValidate $r)", ty{"Unit", "unit"}, []string{"ext_argsValidate"}},
 	"*args.Args.ToIPLD":               {"(ext_toIPLD $r)", ty{"N", "datamodel.Node"}, []string{"ext_toIPLD"}},
@@ -320,6 +328,7 @@ var useTypes = map[string]string{
 	"ext_matchStatement":   "Option S → N → (Int × (Option S))",
 	"ext_mbDecode":         "Bytes → GoM (Int × Bytes)",
 	"ext_didParse":         "Bytes → GoM D",
+	"ext_defined":          "D → Bool",
 	"ext_optionalDID":      "Option Bytes → GoM D",
 	"ext_policyFromIPLD":   "N → GoM (List (Option S))",
 	"ext_newMeta":          "M",
@@ -355,7 +364,7 @@ const secretboxPrelude = `variable (ext_randRead : Nat → GoM Bytes) (ext_seal 
 
 const decodePrelude = `variable {N M : Type} (ext_didParse : Bytes → GoM D) (ext_optionalDID : Option Bytes → GoM D)
   (ext_policyFromIPLD : N → GoM (List (Option S))) (ext_newMeta : M) (ext_dlgValidate : DlgDec D S M → GoM Unit)
-  (ext_invValidate : InvDec D C A M → GoM Unit) (ext_argsValidate : A → GoM Unit)
+  (ext_invValidate : InvDec D C A M → GoM Unit) (ext_argsValidate : A → GoM Unit) (ext_defined : D → Bool)
 `
 
 const didPrelude = `variable (ext_mbDecode : Bytes → GoM (Int × Bytes)) (ext_fromUvarint : Bytes → GoM (Int × Int))
